@@ -652,3 +652,46 @@ _t(
     kept=["/t11/n", "/t11/z", "/t11/a", "/t11/b"],
 )
 T["T11"].modules["tq.zclash"] = {"a": clash_source(T["T11"])}
+
+# ---------------------------------------------------------------- T15: three levels - top -> zero-argument mid (reads nothing) -> leaf kept with a
+# run-time argument. An edit of top before the call is outside the cone of mid and leaf.
+_T15 = '''
+def leaf(v):
+    tick.hit("leaf")
+    return ("leaf", v)
+
+
+def mid():
+    tick.hit("mid")
+    w = (1, 2)
+    return ("mid", dds.keep("/t15/leaf", leaf, w))
+
+
+def other():
+    tick.hit("other")
+    return ("other", 1)
+
+
+def top():
+    tick.hit("top")
+    x = 1
+    return ("top", x, dds.keep("/t15/mid", mid))
+'''
+_t(
+    "T15",
+    [PKG, ("tq.m1", {
+        "a": HEAD + _T15,
+        "b": HEAD + _T15.replace("    x = 1\n", "    x = 2\n"),  # unrelated local statement of the caller, before the call
+        "c": HEAD + _T15.replace("    x = 1\n", "    x = 1\n    y = dds.keep(\"/t15/other\", other)\n"),  # an unrelated sibling keep added before the call
+    })],
+    leaves=[],
+    entry=("tq.m1", "top"),
+    kept=["/t15/mid", "/t15/leaf"],
+)
+T["T15"].modules["tq.zclash"] = {"a": clash_source(T["T15"])}
+
+# T7 also reads a tracked variable whose name is a Python builtin
+for _v in ("a", "b"):
+    T["T7"].modules["tq.m1"][_v] = T["T7"].modules["tq.m1"][_v].replace("G = 0\n", "G = 0\nmax = 0\n").replace('return ("l", G)', 'return ("l", G, max)').replace('return ("l2", G)', 'return ("l2", G, max)')
+T["T7"].leaves.append(("tq.m1", "max", "int", True))
+T["T7"].modules["tq.zclash"] = {"a": clash_source(T["T7"])}
